@@ -464,7 +464,8 @@ fn long_ranges(ctx: &Ctx) {
         }
         let mut s = seed.wrapping_mul(0xD1B54A32D192ED03) | 1;
         let start = starts[(rnd(&mut s) % starts.len() as u64) as usize].clone();
-        let nkeys = 5 + (rnd(&mut s) % 5) as usize;
+        // mostly 5..=9 keys; every 8th case a long run of 40..=75 keys
+        let nkeys = if seed % 8 == 0 { 40 + (rnd(&mut s) % 36) as usize } else { 5 + (rnd(&mut s) % 5) as usize };
         let mut keys = vec![start.clone()];
         while keys.len() < nkeys {
             match refsem::next_key(keys.last().unwrap()) {
@@ -484,7 +485,9 @@ fn long_ranges(ctx: &Ctx) {
                 pre.0.entry(target.clone()).or_default().insert(k.clone(), pv.clone());
             }
             expect_pre.push(pv.clone());
-            match rnd(&mut s) % 4 {
+            // long runs: mutations are sparse, so that long stretches of unmutated keys fall back to the pre-state
+            let dice = if nkeys >= 40 { rnd(&mut s) % 40 } else { rnd(&mut s) % 4 };
+            match dice {
                 0 => {
                     muts.push(Mutation { key: k.clone(), value: vec![] });
                     expect_post.push(vec![]);
@@ -504,7 +507,7 @@ fn long_ranges(ctx: &Ctx) {
         let mut ops = post_read(&start, nkeys, room, 0, if extern_read { Some(&target) } else { None });
         let block_post = layout(&expect_post, 0, room);
         ops.extend(expect_stack(&block_post));
-        ops.push(asm::Stack::Pop.into());
+        // the verdict of the first comparison stays on the stack (it must be 1) below the second block
         // pre-state read of the same range into a second block
         ops.push(push(room as Word));
         ops.push(asm::Memory::Alloc.into());
@@ -524,7 +527,9 @@ fn long_ranges(ctx: &Ctx) {
         ops.push(push(room as Word));
         ops.push(push(room as Word));
         ops.push(asm::Memory::LoadRange.into());
-        ops.extend(expect_stack(&layout(&expect_pre, room, room)));
+        let mut second: Words = vec![1];
+        second.extend(layout(&expect_pre, room, room));
+        ops.extend(expect_stack(&second));
         let mut progs = BTreeMap::new();
         progs.insert(ca(1), bytes(ops));
         progs.insert(ca(2), bytes(vec![push(1)]));
@@ -547,7 +552,56 @@ fn long_ranges(ctx: &Ctx) {
     }
 }
 
+/// Parent outputs whose concatenation is exactly at / one above the stack and memory limits.
+fn concat_limits(ctx: &Ctx) {
+    let leaf = |a: u8| Node { edge_start: u16::MAX, program_address: ca(a) };
+    for (name, total, is_mem) in [("stack-4096", 4096usize, false), ("stack-4097", 4097, false), ("stack-4095", 4095, false), ("memory-10240", 10240, true), ("memory-10241", 10241, true)] {
+        for split in [1usize, 2, 8] {
+            let id = format!("concat/{name}/{split}");
+            if !ctx.want(&id) {
+                continue;
+            }
+            // `split` parents produce `total` words together (the first one takes the remainder)
+            let per = total / split;
+            let first = total - per * (split - 1);
+            let mut progs = BTreeMap::new();
+            let mut nodes = Vec::new();
+            let mut edges = Vec::new();
+            for pi in 0..split {
+                let words = if pi == 0 { first } else { per };
+                let ops: Vec<asm::Op> = if is_mem {
+                    vec![push(words as Word), asm::Memory::Alloc.into(), asm::Stack::Pop.into()]
+                } else {
+                    // Reserve pushes `len` zeros and the start index: words - 1 zeros + 1 word
+                    vec![push(words as Word - 1), asm::Stack::Reserve.into()]
+                };
+                progs.insert(ca(pi as u8 + 1), bytes(ops));
+                nodes.push(Node { edge_start: edges.len() as u16, program_address: ca(pi as u8 + 1) });
+                edges.push(split as u16);
+            }
+            // the child: reduces whatever it inherits to one word and compares it with what the reference semantics predicts
+            let child_ops: Vec<asm::Op> = if is_mem {
+                vec![push(0), asm::Memory::Alloc.into(), push(total as Word), asm::Pred::Eq.into()]
+            } else {
+                // stack = split blocks of zeros each ending with 0 (the reserve start index): all zeros; add them all up
+                let mut ops: Vec<asm::Op> = (0..total - 1).map(|_| asm::Alu::Add.into()).collect();
+                ops.push(push(0));
+                ops.push(asm::Pred::Eq.into());
+                ops
+            };
+            progs.insert(ca(0x40), bytes(child_ops));
+            nodes.push(leaf(0x40));
+            let mut preds = BTreeMap::new();
+            preds.insert(ca(0xA0), Predicate { nodes, edges });
+            let case = Case { pre: PreState::default(), set: SolutionSet { solutions: vec![one_solution(ca(0xA0), ca(0xC0), vec![])] }, preds, progs };
+            run_case(ctx, &id, "a node starts from the concatenation of its parents' outputs whenever that fits the stack / memory limits exactly, and fails when it does not",
+                &case, || format!("{split} parents producing {total} {} words in total", if is_mem { "memory" } else { "stack" }));
+        }
+    }
+}
+
 pub fn run(ctx: &Ctx) {
+    concat_limits(ctx);
     sampled(ctx);
     long_ranges(ctx);
     malformed(ctx);
